@@ -704,6 +704,27 @@ def check_graph(run, rng, spec: Dict[str, Any], engine: str, case: Dict[str, Any
             if b_def.getvalue() != b_exp.getvalue():
                 run.violation(f'{label} with default arguments differs from the call that spells the documented defaults out',
                               key='default-arguments-differ', engine=engine, case=case)
+    # binary version 0 ("Must be a number from 0-5"): the legacy header `<!-- DMXVersion <name>_v2 -->`, which the reader
+    # accepts for the names 'binary' and 'sfm'; it carries no format name/version (read back as '' and 0) and no TIME type
+    if not feat['non_ascii'] and not feat['nul'] and not feat['time']:
+        from srctools.dmx import Element as _El
+        name0 = ('sfm', 'binary')[len(exp) % 2]
+        b0 = io.BytesIO()
+        try:
+            root.export_binary(b0, 0, name0, 1, 'ascii')
+            parsed0, got_name0, got_ver0 = _El.parse(io.BytesIO(b0.getvalue()))
+            d0 = diff_nodes(exp, snapshot(parsed0), exact=True, uuids=True)
+        except Exception as exc:
+            run.violation(f'binary v0 ({name0}): export/parse raised {type(exc).__name__}: {exc}', key='legacy-version-0-roundtrip',
+                          witness={'stream': b0.getvalue()[:200].hex()}, engine=engine, case=case)
+        else:
+            run.count('legacy_version_0_roundtrips')
+            if d0 is not None:
+                run.violation(f'binary v0 ({name0}): parse(export(g)) differs from g at {d0["path"]} ({d0["field"]}): want {d0["want"]!r} got {d0["got"]!r}',
+                              witness=d0, key='legacy-version-0-roundtrip', engine=engine, case=case)
+            elif (got_name0, got_ver0) != ('', 0):
+                run.violation(f'binary v0: format came back as {got_name0!r} {got_ver0!r} (the legacy header carries none)',
+                              key='legacy-version-0-roundtrip', engine=engine, case=case)
     after = snapshot(root)
     d = diff_nodes(exp, after, True, True)
     if d is not None:
@@ -1015,7 +1036,7 @@ def main(run, shard=(0, 1)) -> None:
         name_attr_case(run)
     probe.report(run)
     probe.check_reached(run)
-    run.require('default_argument_exports', 'binary_parses', 'kv2_parses', 'real_file_roundtrips', 'repeated_exports', 'graphs_re_exported_after_edits', 'independent_decodes_agree', 'to_kv1_calls', 'to_kv1_after_wire',
+    run.require('default_argument_exports', 'legacy_version_0_roundtrips', 'binary_parses', 'kv2_parses', 'real_file_roundtrips', 'repeated_exports', 'graphs_re_exported_after_edits', 'independent_decodes_agree', 'to_kv1_calls', 'to_kv1_after_wire',
                 'graphs_with_sharing', 'graphs_with_cycle', 'graphs_with_self_loop', 'graphs_with_nameless_elements', 'stub_occurrences', 'null_in_array_occurrences',
                 'empty_array_occurrences', 'scalar_matrix_occurrences', 'name_needs_escape_occurrences',
                 'unicode_string_array_occurrences', 'unicode_type_occurrences', 'ascii_mode_refused_non_ascii',
